@@ -225,6 +225,18 @@ type Frame struct {
 	vars map[types.Object]*Value
 	pkg  *packages.Package
 	up   *Frame
+	// defers: the deferred calls of the function activation this frame is the root of (nil for block frames)
+	defers *[]func()
+}
+
+// fnFrame: the root frame of the function activation a statement runs in.
+func (f *Frame) fnFrame() *Frame {
+	for x := f; x != nil; x = x.up {
+		if x.defers != nil {
+			return x
+		}
+	}
+	return nil
 }
 
 func (f *Frame) lookup(o types.Object) *Value {
@@ -723,7 +735,12 @@ func (in *Interp) callFunc(fn *VFunc, args []Value, callPos token.Pos) Value {
 			}
 		}
 	}
+	var deferred []func()
+	fr.defers = &deferred
 	c, ret := in.block(fr, body.List)
+	for k := len(deferred) - 1; k >= 0; k-- {
+		deferred[k]()
+	}
 	if c == cReturn && ret != nil {
 		return ret
 	}
@@ -753,6 +770,18 @@ func (in *Interp) zero(t types.Type) Value {
 			return VBool{Known: true}
 		case u.Info()&types.IsInteger != 0:
 			return VInt{Known: true}
+		}
+	case *types.Struct:
+		// the zero value of a struct type of the generator itself (var n Named; n.Fields = …): a struct of zero fields
+		if n, ok := t.(*types.Named); !ok || (n.Obj().Pkg() != nil && strings.HasPrefix(n.Obj().Pkg().Path(), modPath)) {
+			st := &VStruct{Fields: map[string]Value{}}
+			if ok {
+				st.Type = n
+			}
+			for i := 0; i < u.NumFields(); i++ {
+				st.Fields[u.Field(i).Name()] = in.zero(u.Field(i).Type())
+			}
+			return st
 		}
 	}
 	return VNil{}
@@ -1207,7 +1236,35 @@ func (in *Interp) stmt(fr *Frame, s ast.Stmt) (ctl, Value) {
 			c = cNone
 		}
 		return c, r
-	case *ast.DeferStmt, *ast.EmptyStmt:
+	case *ast.EmptyStmt:
+	case *ast.DeferStmt:
+		// the function value and the arguments are evaluated now, the call happens when the surrounding function returns
+		root := fr.fnFrame()
+		if root == nil {
+			break
+		}
+		c := v.Call
+		var callee Value
+		if inner, ok := ast.Unparen(c.Fun).(*ast.CallExpr); ok {
+			callee = in.call(fr, inner) // defer open(...)(): open runs now, what it returns runs at the end
+		} else if _, isLit := ast.Unparen(c.Fun).(*ast.FuncLit); isLit {
+			callee = in.eval(fr, c.Fun)
+		} else if id, isID := ast.Unparen(c.Fun).(*ast.Ident); isID {
+			if p := fr.lookup(in.info(fr).Uses[id]); p != nil {
+				callee = *p
+			}
+		}
+		if vf, ok := callee.(*VFunc); ok {
+			var args []Value
+			for _, a := range c.Args {
+				args = append(args, in.eval(fr, a))
+			}
+			pos := c.Pos()
+			*root.defers = append(*root.defers, func() { in.callFunc(vf, args, pos) })
+		} else {
+			// a method of a modelled value (p.Out(), buf.WriteString(…)): evaluated when it runs
+			*root.defers = append(*root.defers, func() { in.call(fr, c) })
+		}
 	default:
 		in.fail("stmt %T at %v", s, fr.pkg.Fset.Position(s.Pos()))
 	}
@@ -1282,6 +1339,20 @@ func (in *Interp) binop(op token.Token, a, b Value, sym string) Value {
 				return len(v.Parts) == 1 && v.Parts[0].Hole != nil && v.Parts[0].Hole.Kind == "NAME"
 			}
 			if (ok1 && (xs == "_" || xs == "") && isName(y)) || (ok2 && (ys == "_" || ys == "") && isName(x)) {
+				return VBool{Known: true, V: op == token.NEQ}
+			}
+			// a text with more literal characters than the literal it is compared with cannot equal it (in particular a text
+			// with any literal part is not the empty string)
+			litLen := func(v VStr) int {
+				n := 0
+				for _, p := range v.Parts {
+					if p.Hole == nil {
+						n += len(p.Lit)
+					}
+				}
+				return n
+			}
+			if (ok2 && !ok1 && litLen(x) > len(ys)) || (ok1 && !ok2 && litLen(y) > len(xs)) {
 				return VBool{Known: true, V: op == token.NEQ}
 			}
 			return VBool{Sym: x.render() + op.String() + y.render()}
@@ -1525,6 +1596,39 @@ func (in *Interp) eval(fr *Frame, e ast.Expr) Value {
 						in.gpanic(x.Pos(), "index %d out of range of a string of length %d", i.V, len(ls))
 					}
 					return VInt{Known: true, V: int(ls[i.V])}
+				}
+			}
+			// the first and the last byte of a text that starts / ends with a literal part are known; a part that stands for
+			// an identifier (a field, function or package name) starts and ends with a letter-like byte
+			if len(b.Parts) > 0 {
+				edge := func(p Part, first bool) (int, bool) {
+					if p.Hole == nil {
+						if p.Lit == "" {
+							return 0, false
+						}
+						if first {
+							return int(p.Lit[0]), true
+						}
+						return int(p.Lit[len(p.Lit)-1]), true
+					}
+					switch p.Hole.Kind {
+					case "NAME", "FUNC", "PKG":
+						return 'x', true
+					}
+					return 0, false
+				}
+				if i, ok := idx.(VInt); ok && i.Known && i.V == 0 {
+					if v, ok := edge(b.Parts[0], true); ok {
+						return VInt{Known: true, V: v}
+					}
+				}
+				// s[len(s)-1]
+				if be, ok := ast.Unparen(x.Index).(*ast.BinaryExpr); ok && be.Op == token.SUB {
+					if lc, ok := ast.Unparen(be.X).(*ast.CallExpr); ok && len(lc.Args) == 1 && types.ExprString(lc.Fun) == "len" && types.ExprString(lc.Args[0]) == types.ExprString(x.X) && types.ExprString(be.Y) == "1" {
+						if v, ok := edge(b.Parts[len(b.Parts)-1], false); ok {
+							return VInt{Known: true, V: v}
+						}
+					}
 				}
 			}
 			return VInt{Sym: "byte(" + b.render() + "[" + origin(idx) + "])"}
@@ -2087,9 +2191,136 @@ func (in *Interp) call(fr *Frame, c *ast.CallExpr) Value {
 		}
 		// stdlib models
 		switch f.Origin {
-		case "extfunc:slices.Collect":
-			if l, ok := args[0].(*VList); ok {
+		case "extfunc:slices.Collect", "extfunc:slices.Clone", "extfunc:slices.Values":
+			switch l := args[0].(type) {
+			case *VList:
 				return &VList{append([]Value{}, l.Elems...)}
+			case VNil:
+				if f.Origin != "extfunc:slices.Values" {
+					return VNil{}
+				}
+				return &VList{}
+			}
+		case "extfunc:slices.AppendSeq":
+			// append(list, all elements of the sequence…)
+			var base []Value
+			switch l := args[0].(type) {
+			case *VList:
+				base = l.Elems
+			case VNil:
+			default:
+				in.fail("slices.AppendSeq to %T", args[0])
+			}
+			if seq, ok := args[1].(*VList); ok {
+				return &VList{append(append([]Value{}, base...), seq.Elems...)}
+			}
+		case "extfunc:slices.Concat":
+			out := &VList{}
+			lists := args
+			if c.Ellipsis.IsValid() && len(args) == 1 {
+				if l, ok := args[0].(*VList); ok {
+					lists = l.Elems
+				}
+			}
+			okAll := true
+			for _, a := range lists {
+				switch l := a.(type) {
+				case *VList:
+					out.Elems = append(out.Elems, l.Elems...)
+				case VNil:
+				default:
+					okAll = false
+				}
+			}
+			if okAll {
+				return out
+			}
+		case "extfunc:slices.Delete":
+			if l, ok := args[0].(*VList); ok {
+				i, ok1 := args[1].(VInt)
+				j, ok2 := args[2].(VInt)
+				if ok1 && ok2 && i.Known && j.Known && i.V >= 0 && i.V <= j.V && j.V <= len(l.Elems) {
+					return &VList{append(append([]Value{}, l.Elems[:i.V]...), l.Elems[j.V:]...)}
+				}
+				if ok1 && ok2 && i.Known && j.Known {
+					in.gpanic(c.Pos(), "slices.Delete(s, %d, %d) on a list of length %d", i.V, j.V, len(l.Elems))
+				}
+			}
+		case "extfunc:slices.Reverse":
+			if l, ok := args[0].(*VList); ok {
+				for i, j := 0, len(l.Elems)-1; i < j; i, j = i+1, j-1 {
+					l.Elems[i], l.Elems[j] = l.Elems[j], l.Elems[i]
+				}
+				return VTuple{}
+			}
+		case "extfunc:slices.ContainsFunc", "extfunc:slices.IndexFunc", "extfunc:slices.DeleteFunc":
+			// the predicate is applied to the elements in order, as the library does
+			var elems []Value
+			switch l := args[0].(type) {
+			case *VList:
+				elems = l.Elems
+			case VNil:
+			default:
+				in.fail("%s over %T", f.Origin, args[0])
+			}
+			if pf, ok := args[1].(*VFunc); ok {
+				var kept []Value
+				for i, e := range elems {
+					hit := in.truth(in.callFunc(pf, []Value{e}, c.Pos()))
+					switch f.Origin {
+					case "extfunc:slices.ContainsFunc":
+						if hit {
+							return VBool{Known: true, V: true}
+						}
+					case "extfunc:slices.IndexFunc":
+						if hit {
+							return VInt{Known: true, V: i}
+						}
+					default:
+						if !hit {
+							kept = append(kept, e)
+						}
+					}
+				}
+				switch f.Origin {
+				case "extfunc:slices.ContainsFunc":
+					return VBool{Known: true, V: false}
+				case "extfunc:slices.IndexFunc":
+					return VInt{Known: true, V: -1}
+				}
+				return &VList{kept}
+			}
+		case "extfunc:slices.EqualFunc":
+			la, ok1 := args[0].(*VList)
+			lb, ok2 := args[1].(*VList)
+			if _, isNil := args[0].(VNil); isNil {
+				la, ok1 = &VList{}, true
+			}
+			if _, isNil := args[1].(VNil); isNil {
+				lb, ok2 = &VList{}, true
+			}
+			if pf, ok := args[2].(*VFunc); ok && ok1 && ok2 {
+				if len(la.Elems) != len(lb.Elems) {
+					return VBool{Known: true, V: false}
+				}
+				for i := range la.Elems {
+					if !in.truth(in.callFunc(pf, []Value{la.Elems[i], lb.Elems[i]}, c.Pos())) {
+						return VBool{Known: true, V: false}
+					}
+				}
+				return VBool{Known: true, V: true}
+			}
+		case "extfunc:strings.IndexByte", "extfunc:strings.IndexRune", "extfunc:strings.ContainsRune":
+			if hs, ok := asStrOK(args[0]); ok {
+				if txt, isLit := hs.isLit(); isLit {
+					if b, ok := args[1].(VInt); ok && b.Known {
+						i := strings.IndexRune(txt, rune(b.V))
+						if f.Origin == "extfunc:strings.ContainsRune" {
+							return VBool{Known: true, V: i >= 0}
+						}
+						return VInt{Known: true, V: i}
+					}
+				}
 			}
 		case "extfunc:fmt.Sprintf":
 			return in.sprintf(in.rawTypeArgs(fr, c, args, 1))
